@@ -18,11 +18,14 @@ Definition dist_same (a b : list (N * Q)) : bool :=
 
 (* fail-closed audit of the oracle: on every state that is measured or reset along every path of non-zero
    probability, the probability computed by QSim is an exact rational in [0,1] (no sqrt2-part dropped, no
-   clamping), i.e. QSim's p1 is the Born probability of the (unnormalised) vector *)
+   clamping), i.e. QSim's p1 is the Born probability of the (unnormalised) vector, and every gate application on such a
+   path preserved the squared norm (a necessary condition of unitarity; catches ill-formed operands) *)
+Definition q2_eqb (x y : q2) : bool := Qeq_bool (fst x) (fst y) && Qeq_bool (snd x) (snd y).
+
 Fixpoint audit (p : qprog) (s : vec) : bool :=
   match p with
   | [] => true
-  | PGate g qs :: r => audit r (qapply g qs s)
+  | PGate g qs :: r => q2_eqb (norm2 (qapply g qs s)) (norm2 s) && audit r (qapply g qs s)   (* the gate preserved |v|^2 *)
   | PBarrier _ :: r => audit r s
   | PMeasure q _ :: r =>
       qp1_is_exact s q &&
@@ -58,6 +61,7 @@ Definition sim_case := (nat * nat * qprog * res (list (N * Q)) * res (list (N * 
 Definition chk_sim (c : sim_case) : bool :=
   let '(nq, ncl, p, efn, esam, oracle_ok) := c in
   oracle_ok &&
+  wf_qprog nq ncl p &&
   audit p (init_vec nq) &&
   res_beq (map_eqv eps_model) (qsimulate sim_tolerance nq p) efn &&
   res_beq (map_eqv eps_model) (qsampler sim_tolerance nq ncl p) esam &&
@@ -102,7 +106,7 @@ Definition multiq_case := (list (nat * nat * qprog) * res (list (list (N * Q))) 
 Definition chk_multiq (c : multiq_case) : bool :=
   let '(cs, e, oracle_ok) := c in
   oracle_ok &&
-  forallb (fun c => audit (snd c) (init_vec (fst (fst c)))) cs &&
+  forallb (fun c => wf_qprog (fst (fst c)) (snd (fst c)) (snd c) && audit (snd c) (init_vec (fst (fst c)))) cs &&
   res_beq (list_beq (map_eqv eps_model)) (qsampler_run sim_tolerance cs) e.
 
 (* shorthand used by the case files *)
